@@ -169,10 +169,10 @@ type c20Snap struct {
 // (scope suffix "+hp": relative to the work tree, "+hpabs": absolute)
 func c20HooksDir(dir, scope string) string {
 	switch {
-	case strings.HasSuffix(scope, "+hpabs"):
+	case strings.Contains(scope, "+hpabs"):
 		return dir + "-abs-hooks"
-	case strings.HasSuffix(scope, "+hp"):
-		return filepath.Join(dir, "custom-hooks")
+	case strings.Contains(scope, "+hp"):
+		return filepath.Join(dir, "custom-hooks") // a relative core.hooksPath is relative to the top of the work tree
 	}
 	return filepath.Join(dir, ".git", "hooks")
 }
@@ -244,7 +244,7 @@ func c20(c *Ctx) {
 		n = 0
 	}
 	for i := 0; i < n; i++ {
-		cs := c20Case{Scope: Pick(r, []string{"global", "local"}) + Pick(r, []string{"", "", "", "+hp", "+hpabs"}), Filter: map[string]string{}}
+		cs := c20Case{Scope: Pick(r, []string{"global", "local"}) + Pick(r, []string{"", "", "", "+hp", "+hpabs", "+hp+sub", "+sub"}), Filter: map[string]string{}}
 		for _, h := range c20Hooks {
 			cs.Hooks = append(cs.Hooks, genHookState(r, c, h))
 		}
@@ -353,7 +353,7 @@ func runC20Case(c *Ctx, ci int, cs c20Case) (mlines, mimpl []string) {
 		os.MkdirAll(hooksDir, 0o755)
 		defer os.RemoveAll(hooksDir)
 		hp := "custom-hooks"
-		if strings.HasSuffix(cs.Scope, "+hpabs") {
+		if strings.Contains(cs.Scope, "+hpabs") {
 			hp = hooksDir
 		}
 		runIn(dir, env, "git", "config", "--local", "core.hooksPath", hp)
@@ -415,7 +415,19 @@ func runC20Case(c *Ctx, ci int, cs c20Case) (mlines, mimpl []string) {
 	var prevSnap c20Snap
 	for _, cmd := range cs.Cmds {
 		before := c20Snapshot(dir, cfgFile, cs.Scope)
-		out, code := runIn(dir, env, c.Lfs, cmd...)
+		cwd := dir
+		if strings.Contains(cs.Scope, "+sub") {
+			// the command is run from a sub-directory of the work tree, as users do
+			cwd = filepath.Join(dir, "sub", "dir")
+			os.MkdirAll(cwd, 0o755)
+		}
+		out, code := runIn(cwd, env, c.Lfs, cmd...)
+		if cwd != dir {
+			if ents, _ := os.ReadDir(cwd); len(ents) > 0 {
+				fail(fmt.Sprintf("`git lfs %s` run from a sub-directory created files there", strings.Join(cmd, " ")), fmt.Sprint(len(ents))+" entries, e.g. "+ents[0].Name())
+			}
+			c.R.Count("cmd.from-subdirectory")
+		}
 		after := c20Snapshot(dir, cfgFile, cs.Scope)
 		c.R.Count("cmd." + cmd[0])
 		force, skipRepo := false, false
